@@ -23,7 +23,7 @@ EXPLANATION = (
     "exactly the suffix, deletes the replacement iff the target exists and otherwise renames it over the target. Evaluates "
     "_encode's replace chain over the base64 alphabet: no '.', '/' or newline can occur in an encoded name (so no entry can "
     "look like a temporary or leave the directory) and _decode inverts it. Who-may-mutate: only __setitem__, __delitem__, "
-    "recovery and _writeFile touch the directory. Not decided: durability across power loss (no fsync), concurrent writers."
+    "recovery and _writeFile touch the directory. Not decided: durability across power loss (no fsync), concurrent writers. "
     "Every anchor function is also checked to be entered on every call (no memoising/wrapping decorator, duplicate definition or rebinding). "
 )
 ASSUMPTIONS = [
